@@ -97,6 +97,8 @@ def datasets(shard):
             for o in other:
                 for w in dc.WIDTHS:
                     yield kind, [dc.datum((tv, w, "ab")), dc.datum((o, 55, None))]
+                # an explicit width of 0 (with and without text) is a width, not "no width"
+                yield kind, [dc.datum((tv, 0, None)), dc.datum((o, 20, "ab")), dc.datum((o, 0, "x"))]
 
 
 def plan(tier, seed):
